@@ -1,5 +1,6 @@
 import GinjaxVerif.Lemmas.C05Eval
 import GinjaxVerif.Lemmas.C05LC
+import GinjaxVerif.Lemmas.C05LCGeneral
 import GinjaxVerif.Lemmas.C05Sym
 import GinjaxVerif.Lemmas.C05Conv
 import GinjaxVerif.Lemmas.SignedPerm
@@ -15,9 +16,13 @@ ring of pixel values, every extent vector, every tensor order, every tree, every
 every matrix accepted by `isSignedPerm` (= all of `B_d`), every `sqrtF`, and every materialiser
 `tab` that is the identity up to extensional equality.
 
-* Levi-Civita nodes: `d ∈ {2, 3}` (`LCSign_two/three`, decided on the symbol as the code builds
-  it); for any other `d` the sign identity is the hypothesis `LCSign` (`leviCivita_sign_statement`
-  is the general statement, not proved).
+* Levi-Civita nodes: the sign identity `LCSign g` holds in **every** dimension
+  (`leviCivita_sign : leviCivita_sign_statement`, from `LCSign_general` in
+  `Lemmas/C05LCGeneral.lean`): the code's `permutation_parity` marking loop is proved to compute
+  `Equiv.Perm.sign` (`permParity_eq_sign`), so the symbol it builds is the usual one
+  (`leviCivitaSym_eq_sign`).  For `d ∈ {2, 3}` there is also the independent kernel decision
+  `LCSign_two/three`.  The `…_gen` theorems are the all-dimension forms of the main theorems
+  (`eval_equivariant_general : eval_equivariant_statement`).
 * Convolution nodes (default options): the case of the induction is the hypothesis
   `ConvHyp.hConv`, **discharged by C01's `conv_act`**; `convI_hyp` supplies the rest for the
   direct-sum model `convI`.
@@ -137,8 +142,9 @@ theorem eval_equivariant_anyDim (M : Mat d) (hM : isSignedPerm M = true)
     (fun h => by rw [hnl] at h; exact absurd h (by decide))
     (fun h => by rw [hnc] at h; exact absurd h (by decide)) ht
 
-/-- the full statement in every dimension (Levi-Civita nodes included) — open exactly by
-`leviCivita_sign_statement` -/
+/-- the full statement in every dimension (Levi-Civita nodes included); it follows from
+`leviCivita_sign_statement` (`eval_equivariant_statement_of_sign`), which is proved
+(`leviCivita_sign`), so it is a theorem: `eval_equivariant_general` -/
 def eval_equivariant_statement : Prop :=
   ∀ (R : Type) [CommRing R] (d : Nat) (M : Mat d), isSignedPerm M = true →
     ∀ (sqrtF : R → R) (convF : (Fin d → Bool) → Img R d → Img R d → Img R d), ConvHyp convF →
@@ -150,6 +156,59 @@ theorem eval_equivariant_statement_of_sign (h : leviCivita_sign_statement) :
   intro R _ d M hM sqrtF convF hC env e t ht
   exact (eval_equivariant_of M hM id (fun A => Img.SEq.refl A) sqrtF convF env e t
     (fun _ g => h d g) (fun _ => hC) ht).2.1
+
+/-! ### every dimension: the Levi-Civita sign identity is a theorem -/
+
+/-- **the sign identity of the Levi-Civita symbol, every dimension, every `g ∈ B_d`**: on the
+symbol as the code builds it (`permutation_parity` by cycle counting, proved to be
+`Equiv.Perm.sign` by `permParity_eq_sign`), `ε(m) = det g · Π s(m_i) · ε(σ m)`. -/
+theorem leviCivita_sign : leviCivita_sign_statement := leviCivita_sign_general
+
+/-- **the full statement in every dimension**, Levi-Civita nodes included -/
+theorem eval_equivariant_general : eval_equivariant_statement :=
+  eval_equivariant_statement_of_sign leviCivita_sign
+
+/-- **Main theorem, every dimension, all node kinds**; the only remaining hypothesis is the
+equivariance of convolution, and only for trees that convolve (all-`d` form of
+`eval_equivariant`). -/
+theorem eval_equivariant_gen (M : Mat d) (hM : isSignedPerm M = true)
+    (tab : Img R d → Img R d) (htab : ∀ A, (tab A).SEq A) (sqrtF : R → R)
+    (convF : (Fin d → Bool) → Img R d → Img R d → Img R d)
+    (hConv : ConvHyp convF)
+    (env : Nat → GImg R d) (e : Expr R) (t : Ty d)
+    (ht : tyOf (fun i => (env i).ty) e = some t) :
+    (eval tab sqrtF convF env e).ty = t ∧
+    (eval tab sqrtF convF (actEnv M env) e).img.SEq (tge M t.p (eval tab sqrtF convF env e).img) ∧
+    (eval tab sqrtF convF (actEnv M env) e).p = t.p ∧
+    (eval tab sqrtF convF (actEnv M env) e).torus = transport M t.torus :=
+  eval_equivariant_of M hM tab htab sqrtF convF env e t (fun _ => LCSign_general)
+    (fun _ => hConv) ht
+
+/-- **Unconditional form, every dimension** (all-`d` form of `eval_equivariant_convI`): with the
+direct-sum convolution `convI` every well-typed tree is equivariant with its declared type. -/
+theorem eval_equivariant_convI_gen (M : Mat d) (hM : isSignedPerm M = true)
+    (tab : Img R d → Img R d) (htab : ∀ A, (tab A).SEq A) (sqrtF : R → R)
+    (env : Nat → GImg R d) (e : Expr R) (t : Ty d)
+    (ht : tyOf (fun i => (env i).ty) e = some t) :
+    (eval tab sqrtF convI env e).ty = t ∧
+    (eval tab sqrtF convI (actEnv M env) e).img.SEq (tge M t.p (eval tab sqrtF convI env e).img) ∧
+    (eval tab sqrtF convI (actEnv M env) e).p = t.p ∧
+    (eval tab sqrtF convI (actEnv M env) e).torus = transport M t.torus :=
+  eval_equivariant_gen M hM tab htab sqrtF convI convI_convHyp env e t ht
+
+/-- convolution-free trees, every dimension, Levi-Civita nodes allowed: no hypothesis left
+(all-`d` form of `eval_equivariant_noConv`) -/
+theorem eval_equivariant_noConv_gen (M : Mat d) (hM : isSignedPerm M = true)
+    (tab : Img R d → Img R d) (htab : ∀ A, (tab A).SEq A) (sqrtF : R → R)
+    (convF : (Fin d → Bool) → Img R d → Img R d → Img R d)
+    (env : Nat → GImg R d) (e : Expr R) (t : Ty d) (hnc : hasConv e = false)
+    (ht : tyOf (fun i => (env i).ty) e = some t) :
+    (eval tab sqrtF convF env e).ty = t ∧
+    (eval tab sqrtF convF (actEnv M env) e).img.SEq (tge M t.p (eval tab sqrtF convF env e).img) ∧
+    (eval tab sqrtF convF (actEnv M env) e).p = t.p ∧
+    (eval tab sqrtF convF (actEnv M env) e).torus = transport M t.torus :=
+  eval_equivariant_of M hM tab htab sqrtF convF env e t (fun _ => LCSign_general)
+    (fun h => by rw [hnc] at h; exact absurd h (by decide)) ht
 
 /-! ### the E2 lemmas, restated for the record (proved in `Lemmas/C05.lean`) -/
 
@@ -164,6 +223,12 @@ theorem leviCivita_act_23 (hd : d = 2 ∨ d = 3) (g : SP d) (c : Int) (idxs : Li
     (hwf : wfPairs (lcPairs A.k idxs) (List.replicate (A.k + d) false) = true) :
     (leviCivitaI idxs (pf g c A)).SEq (pf g (c * det g.mat) (leviCivitaI idxs A)) :=
   leviCivita_act g (LCSign_23 hd g) c idxs A hwf
+
+/-- the same in every dimension -/
+theorem leviCivita_act_gen (g : SP d) (c : Int) (idxs : List Nat) (A : Img R d)
+    (hwf : wfPairs (lcPairs A.k idxs) (List.replicate (A.k + d) false) = true) :
+    (leviCivitaI idxs (pf g c A)).SEq (pf g (c * det g.mat) (leviCivitaI idxs A)) :=
+  leviCivita_act g (LCSign_general g) c idxs A hwf
 
 /-! ### non-vacuity -/
 
@@ -201,6 +266,13 @@ example : (eval id id convI envEx (Expr.leviCivita [0] (Expr.leaf 0 : Expr Int))
 /-- the symbol is the usual one -/
 example : leviCivitaSym 3 [0, 1, 2] = 1 ∧ leviCivitaSym 3 [1, 0, 2] = -1 ∧
     leviCivitaSym 3 [1, 2, 0] = 1 ∧ leviCivitaSym 3 [0, 0, 2] = 0 := by decide
+/-- the general-`d` theorems say something beyond `d ≤ 3`: a 4-cycle is odd, a double
+transposition even, a repeated entry gives 0 (evaluated on the model, then re-derived from
+`leviCivitaSym_perm`) -/
+example : leviCivitaSym 4 [1, 2, 3, 0] = -1 ∧ leviCivitaSym 4 [1, 0, 3, 2] = 1 ∧
+    leviCivitaSym 4 [1, 1, 3, 2] = 0 ∧ leviCivitaSym 5 [4, 3, 2, 1, 0] = 1 := by decide
+example : leviCivitaSym 4 ((List.finRange 4).map (Equiv.swap (0 : Fin 4) 1)) = -1 := by
+  rw [leviCivitaSym_perm, Equiv.Perm.sign_swap (by decide)]; rfl
 /-- `ConvHyp` is satisfiable (so the conditional theorem is not vacuous) -/
 example : ConvHyp (R := Int) (d := 2) (fun _ A F => ⟨A.dims, A.k + F.k, fun _ _ => 0⟩) :=
   ⟨fun _ _ _ => rfl, fun _ _ _ => rfl,
